@@ -935,7 +935,7 @@ class TaggedOperation(Operation):
         )
 
     def __pow__(self, exponent: Any) -> cirq.Operation:
-        return self.sub_operation**exponent
+        return protocols.pow(self.sub_operation, exponent, NotImplemented)
 
     def __mul__(self, other: Any) -> Any:
         return self.sub_operation * other
